@@ -99,7 +99,7 @@ func TestRunVersusRun(t *testing.T) {
 	sec := vk.Sec("RunVersusRun")
 	vk.Check(t, 12, 400, func(rt *rapid.T) {
 		c := runRaceCase{Kind: rapid.SampledFrom([]string{"runner-manager", "runner-manager", "closer-manager"}).Draw(rt, "kind"), Callers: rapid.SampledFrom([]int{2, 3, 8}).Draw(rt, "callers"),
-			Runners: rapid.IntRange(1, 3).Draw(rt, "runners"), Procs: rapid.SampledFrom([]int{2, 4, 16}).Draw(rt, "procs"), Rounds: vk.Pick(3000, 20000)}
+			Runners: rapid.IntRange(1, 3).Draw(rt, "runners"), Procs: rapid.SampledFrom([]int{2, 4, 16}).Draw(rt, "procs"), Rounds: vk.Pick(10000, 40000)}
 		var failure string
 		vk.Guard("C12 "+c.String(), func() { failure = runRunRace(c) })
 		if failure != "" {
